@@ -442,6 +442,9 @@ class Inliner:
             # the same pure alias in both (op = dis.opmap): one variable will do
             def sole_value(fn_: ast.AST, name: str) -> Optional[str]:
                 vals = [a_.value for a_ in _scope_nodes(fn_) if isinstance(a_, ast.Assign) and len(a_.targets) == 1 and isinstance(a_.targets[0], ast.Name) and a_.targets[0].id == name]
+                for a_ in _scope_nodes(fn_):
+                    if isinstance(a_, ast.Assign) and len(a_.targets) == 1 and isinstance(a_.targets[0], ast.Tuple) and isinstance(a_.value, ast.Tuple) and len(a_.value.elts) == len(a_.targets[0].elts):
+                        vals += [v_ for t_, v_ in zip(a_.targets[0].elts, a_.value.elts) if isinstance(t_, ast.Name) and t_.id == name]
                 stores = [n_ for n_ in _scope_nodes(fn_) if isinstance(n_, ast.Name) and n_.id == name and isinstance(n_.ctx, (ast.Store, ast.Del))]
                 if len(vals) == 1 and len(stores) == 1 and _pure_arg(vals[0]) and not isinstance(vals[0], ast.Name):
                     return ast.unparse(vals[0])
@@ -741,7 +744,10 @@ class Inliner:
 
     def run(self) -> ast.Module:
         self.new_helpers()
+        self.flatten_record_params()
         if not self.helpers:
+            self.scalar_replace()
+            ast.fix_missing_locations(self.tree)
             return self.tree
 
         def drive(node: ast.AST, scope: List[str]) -> None:
@@ -760,8 +766,264 @@ class Inliner:
                     drive(ch, scope)
 
         drive(self.tree, [])
+        self.fuse_accumulators()
+        self.scalar_replace()
         ast.fix_missing_locations(self.tree)
         return self.tree
+
+    # -- a helper's private result list that is at once extended into the caller's list: one list will do
+    def fuse_accumulators(self) -> None:
+        for fn in [n for n in ast.walk(self.tree) if isinstance(n, (ast.FunctionDef, ast.AsyncFunctionDef))]:
+            self._fuse_in_block(fn.body, fn)
+
+    def _fuse_in_block(self, body: List[ast.stmt], fn: ast.AST) -> None:
+        for st in body:
+            for fld in ("body", "orelse", "finalbody"):
+                sub = getattr(st, fld, None)
+                if isinstance(sub, list) and sub and isinstance(sub[0], ast.stmt) and not isinstance(st, (ast.FunctionDef, ast.AsyncFunctionDef, ast.ClassDef)):
+                    self._fuse_in_block(sub, fn)
+            if isinstance(st, ast.Try):
+                for h in st.handlers:
+                    self._fuse_in_block(h.body, fn)
+        changed = True
+        while changed:
+            changed = False
+            for i, a in enumerate(body):
+                tg = a.targets[0] if isinstance(a, ast.Assign) and len(a.targets) == 1 else (a.target if isinstance(a, ast.AnnAssign) else None)
+                if not (isinstance(tg, ast.Name) and tg.id.startswith("_inl") and isinstance(getattr(a, "value", None), ast.List) and not a.value.elts):
+                    continue
+                T = tg.id
+                # find the closing `X.extend(T)` (possibly through `R = T`)
+                for j in range(i + 1, len(body)):
+                    z = body[j]
+                    R = None
+                    if isinstance(z, ast.Assign) and len(z.targets) == 1 and isinstance(z.targets[0], ast.Name) and z.targets[0].id.startswith("_inl_res") \
+                            and isinstance(z.value, ast.Name) and z.value.id == T and j + 1 < len(body):
+                        R = z.targets[0].id
+                        z2 = body[j + 1]
+                    else:
+                        z2 = z
+                    if isinstance(z2, ast.Expr) and isinstance(z2.value, ast.Call) and isinstance(z2.value.func, ast.Attribute) and z2.value.func.attr == "extend" \
+                            and isinstance(z2.value.func.value, ast.Name) and len(z2.value.args) == 1 and isinstance(z2.value.args[0], ast.Name) and z2.value.args[0].id == (R or T):
+                        X = z2.value.func.value.id
+                        between = body[i + 1:j]
+                        uses_ok = True
+                        for b in between:
+                            for n in ast.walk(b):
+                                if isinstance(n, ast.Name) and n.id == X:
+                                    uses_ok = False
+                                if isinstance(n, ast.Name) and n.id == T:
+                                    par_ok = False
+                                    for c in ast.walk(b):
+                                        if isinstance(c, ast.Call) and isinstance(c.func, ast.Attribute) and c.func.value is n and c.func.attr in ("append", "extend"):
+                                            par_ok = True
+                                    if not par_ok:
+                                        uses_ok = False
+                        later = body[(j + 2 if R else j + 1):]
+                        if any(isinstance(n, ast.Name) and n.id in (T, R) for b in later for n in ast.walk(b)):
+                            uses_ok = False
+                        if uses_ok:
+                            for b in between:
+                                for n in ast.walk(b):
+                                    if isinstance(n, ast.Name) and n.id == T:
+                                        n.id = X
+                            del body[j:(j + 2 if R else j + 1)]
+                            del body[i]
+                            self.log.append(f"{self.modname}: the inlined helper's result list {T} is the caller's `{X}` (it was extended into it at once)")
+                            changed = True
+                        break
+                if changed:
+                    break
+
+    # -- parameter objects passed between functions: def f(self, opts: NewRecord) -> def f(self, a, b)
+    def flatten_record_params(self) -> None:
+        """a record class that the reference tree does not have, used as the type of a parameter: the parameter is replaced by
+        the record's fields (reads `p.f` become `f`), and every call in the module that passes such a record -- a fresh
+        `Rec(x, y)`, a local bound to one, or the caller's own record parameter -- passes the fields instead.  All or nothing
+        per record class: if one use is not of these forms the tree is left as written."""
+        if self.reference is None:
+            return
+        recs: Dict[str, List[str]] = {}
+        for ch in ast.walk(self.tree):
+            if isinstance(ch, ast.ClassDef) and ch.name not in self.reference:
+                body = _strip_doc(ch.body)
+                if body and all(isinstance(b, ast.AnnAssign) and isinstance(b.target, ast.Name) for b in body):
+                    recs[ch.name] = [b.target.id for b in body]
+        for rname, fields in recs.items():
+            trial = copy.deepcopy(self.tree)
+            try:
+                n = self._flatten_one(trial, rname, fields)
+            except NotInlinable as ex:
+                self.log.append(f"{self.modname}: parameters of the new record type {rname} left as written: {ex}")
+                continue
+            if n:
+                self.tree.body[:] = trial.body
+                self.log.append(f"{self.modname}: {n} parameter(s) of the new record type {rname} replaced by its fields {fields}")
+
+    def _flatten_one(self, tree: ast.Module, rname: str, fields: List[str]) -> int:
+        def is_rec_ann(a: Optional[ast.AST]) -> bool:
+            if a is None:
+                return False
+            t = ast.unparse(a).strip("'\"")
+            return t == rname
+        fns = [f for f in ast.walk(tree) if isinstance(f, (ast.FunctionDef, ast.AsyncFunctionDef))]
+        flat: Dict[str, Tuple[int, str, bool]] = {}  # function name -> (index among positional params excluding self, param name, is method)
+        for f in fns:
+            allp = f.args.posonlyargs + f.args.args
+            hits = [i for i, a in enumerate(allp) if is_rec_ann(a.annotation)]
+            kwhits = [a for a in f.args.kwonlyargs if is_rec_ann(a.annotation)]
+            if kwhits or len(hits) > 1:
+                raise NotInlinable("keyword-only or several record parameters")
+            if not hits:
+                continue
+            is_method = bool(allp) and allp[0].arg in ("self", "cls")
+            idx = hits[0] - (1 if is_method else 0)
+            if f.name in flat and flat[f.name][:2] != (idx, allp[hits[0]].arg):
+                raise NotInlinable(f"functions called {f.name} take the record at different positions")
+            flat[f.name] = (idx, allp[hits[0]].arg, is_method)
+            if any(x.arg in fields for x in allp + f.args.kwonlyargs if x is not allp[hits[0]]):
+                raise NotInlinable("a field name is already a parameter name")
+            if len(f.args.defaults) > len(allp) - hits[0] - 1 and len(f.args.defaults) >= len(allp) - hits[0]:
+                raise NotInlinable("the record parameter has a default")
+        if not flat:
+            return 0
+        # locals bound once to Rec(...)
+        def local_records(f: ast.AST) -> Dict[str, ast.Call]:
+            out: Dict[str, ast.Call] = {}
+            for a in _scope_nodes(f):
+                if isinstance(a, ast.Assign) and len(a.targets) == 1 and isinstance(a.targets[0], ast.Name) and isinstance(a.value, ast.Call) and isinstance(a.value.func, ast.Name) and a.value.func.id == rname:
+                    stores = [n for n in ast.walk(f) if isinstance(n, ast.Name) and n.id == a.targets[0].id and isinstance(n.ctx, (ast.Store, ast.Del))]
+                    if len(stores) == 1:
+                        out[a.targets[0].id] = a.value
+            return out
+
+        def ctor_args(c: ast.Call) -> List[ast.AST]:
+            if any(isinstance(x, ast.Starred) for x in c.args) or any(k.arg is None for k in c.keywords):
+                raise NotInlinable("star arguments in a record construction")
+            b: Dict[str, ast.AST] = {}
+            for nm, x in zip(fields, c.args):
+                b[nm] = x
+            for k in c.keywords:
+                b[k.arg] = k.value
+            if set(b) != set(fields):
+                raise NotInlinable("record constructed with defaults")
+            return [b[nm] for nm in fields]
+
+        count = 0
+        for f in fns:
+            allp = f.args.posonlyargs + f.args.args
+            own = next((a.arg for a in allp if is_rec_ann(a.annotation)), None)
+            locs = local_records(f)
+
+            def expand(e: ast.AST) -> Optional[List[ast.AST]]:
+                if isinstance(e, ast.Call) and isinstance(e.func, ast.Name) and e.func.id == rname:
+                    return ctor_args(e)
+                if isinstance(e, ast.Name) and e.id == own:
+                    return [ast.Name(id=nm, ctx=ast.Load()) for nm in fields]
+                if isinstance(e, ast.Name) and e.id in locs:
+                    return [copy.deepcopy(x) for x in ctor_args(locs[e.id])] if all(_pure_arg(x) for x in ctor_args(locs[e.id])) else None
+                return None
+
+            for c in [n for n in _scope_nodes(f) if isinstance(n, ast.Call)]:
+                nm = c.func.id if isinstance(c.func, ast.Name) else (c.func.attr if isinstance(c.func, ast.Attribute) else None)
+                if nm not in flat:
+                    continue
+                idx, pname, is_method = flat[nm]
+                pos = idx if (isinstance(c.func, ast.Attribute) or not is_method) else idx + 1
+                done = False
+                if pos < len(c.args):
+                    ex = expand(c.args[pos])
+                    if ex is None:
+                        raise NotInlinable(f"call `{ast.unparse(c)[:50]}` passes the record in a form that cannot be expanded")
+                    c.args[pos:pos + 1] = ex
+                    done = True
+                else:
+                    for k in list(c.keywords):
+                        if k.arg == pname:
+                            ex = expand(k.value)
+                            if ex is None:
+                                raise NotInlinable(f"call `{ast.unparse(c)[:50]}` passes the record in a form that cannot be expanded")
+                            i = c.keywords.index(k)
+                            c.keywords[i:i + 1] = [ast.keyword(arg=fn_, value=v_) for fn_, v_ in zip(fields, ex)]
+                            done = True
+                if not done:
+                    raise NotInlinable(f"call `{ast.unparse(c)[:50]}` does not pass the record parameter")
+            if own is not None:
+                # reads p.f -> f ; any other use of p must be gone by now
+                class R(ast.NodeTransformer):
+                    def visit_Attribute(self, n: ast.Attribute):
+                        self.generic_visit(n)
+                        if isinstance(n.value, ast.Name) and n.value.id == own and n.attr in fields and isinstance(n.ctx, ast.Load):
+                            return ast.copy_location(ast.Name(id=n.attr, ctx=ast.Load()), n)
+                        return n
+                for i_, st in enumerate(f.body):
+                    f.body[i_] = R().visit(st)
+                if any(isinstance(n, ast.Name) and n.id == own for st in f.body for n in ast.walk(st)):
+                    raise NotInlinable(f"{f.name} uses its record parameter other than through its fields")
+                for lst in (f.args.posonlyargs, f.args.args):
+                    for i_, a in enumerate(lst):
+                        if a.arg == own:
+                            lst[i_:i_ + 1] = [ast.arg(arg=nm, annotation=None) for nm in fields]
+                count += 1
+        return count
+
+    # -- parameter objects: v = NewRecord(a=x, b=y) ... v.a  ->  x
+    def scalar_replace(self) -> None:
+        """a local bound once to a constructor call of a record class that the reference tree does not have (NamedTuple /
+        dataclass: fields only) with pure arguments: reads `v.field` in that function and its closures become the argument"""
+        if self.reference is None:
+            return
+        records: Dict[str, List[Tuple[str, Optional[ast.AST]]]] = {}
+        for ch in ast.walk(self.tree):
+            if isinstance(ch, ast.ClassDef) and ch.name not in self.reference and "." not in ch.name:
+                body = _strip_doc(ch.body)
+                if body and all(isinstance(b, ast.AnnAssign) and isinstance(b.target, ast.Name) for b in body):
+                    records[ch.name] = [(b.target.id, b.value) for b in body]
+        if not records:
+            return
+        for fn in [n for n in ast.walk(self.tree) if isinstance(n, (ast.FunctionDef, ast.AsyncFunctionDef))]:
+            for a in list(_scope_nodes(fn)):
+                if not (isinstance(a, ast.Assign) and len(a.targets) == 1 and isinstance(a.targets[0], ast.Name) and isinstance(a.value, ast.Call)
+                        and isinstance(a.value.func, ast.Name) and a.value.func.id in records):
+                    continue
+                v = a.targets[0].id
+                c = a.value
+                if any(isinstance(x, ast.Starred) for x in c.args) or any(k.arg is None for k in c.keywords):
+                    continue
+                flds = records[c.func.id]
+                bound: Dict[str, ast.AST] = {}
+                for (nm, dflt), x in zip(flds, c.args):
+                    bound[nm] = x
+                for k in c.keywords:
+                    bound[k.arg] = k.value
+                for nm, dflt in flds:
+                    if nm not in bound and dflt is not None:
+                        bound[nm] = dflt
+                if set(bound) != {nm for nm, _ in flds} or not all(_pure_arg(x) for x in bound.values()):
+                    continue
+                # v bound exactly once in fn (nowhere in nested scopes), argument names never rebound in fn
+                stores = [n for n in ast.walk(fn) if isinstance(n, ast.Name) and n.id == v and isinstance(n.ctx, (ast.Store, ast.Del))]
+                inner_params = [x for f2 in ast.walk(fn) if isinstance(f2, (ast.FunctionDef, ast.AsyncFunctionDef, ast.Lambda)) and f2 is not fn
+                                for x in f2.args.posonlyargs + f2.args.args + f2.args.kwonlyargs if x.arg == v]
+                if len(stores) != 1 or inner_params:
+                    continue
+                argnames = {n.id for x in bound.values() for n in ast.walk(x) if isinstance(n, ast.Name)}
+                rebound = [n for n in ast.walk(fn) if isinstance(n, ast.Name) and n.id in argnames and isinstance(n.ctx, (ast.Store, ast.Del))]
+                if rebound:
+                    continue
+                count = [0]
+
+                class R(ast.NodeTransformer):
+                    def visit_Attribute(self, n: ast.Attribute):
+                        self.generic_visit(n)
+                        if isinstance(n.value, ast.Name) and n.value.id == v and isinstance(n.ctx, ast.Load) and n.attr in bound:
+                            count[0] += 1
+                            return ast.copy_location(copy.deepcopy(bound[n.attr]), n)
+                        return n
+
+                R().visit(fn)
+                if count[0]:
+                    self.log.append(f"{self.modname}: {count[0]} read(s) of fields of the new record `{v} = {c.func.id}(...)` in {fn.name} replaced by the constructor arguments")
 
 
 def _always_assigned(stmts: List[ast.stmt]) -> bool:
